@@ -142,6 +142,9 @@ def _strip_comments(src: str) -> str:
     return src
 
 
+EXTRA_AUDIT = {"C01": ["Master"], "C02": ["Master"], "C06": ["Master"]}
+
+
 def audit(prop: str, tier: str):
     """Audit the property's theorems: `#print axioms` of every theorem named in
     lean/Audit/<prop>.lean, banned-token grep of the proof sources. Returns list of obligations."""
@@ -150,8 +153,15 @@ def audit(prop: str, tier: str):
     if not audit_file.exists():
         raise Infra(f"missing {audit_file}")
     text = audit_file.read_text()
-    names = re.findall(r"^#print axioms\s+(\S+)", text, flags=re.M)
     rc, out = lean_file(audit_file)
+    # end-to-end composition theorems shared by several properties (lean/Audit/<extra>.lean)
+    extra_files = [LEAN / "Audit" / f"{e}.lean" for e in EXTRA_AUDIT.get(prop, [])]
+    for ef in extra_files:
+        if not ef.exists():
+            raise Infra(f"missing {ef}")
+        text += "\n" + ef.read_text()
+        out += "\n" + lean_file(ef)[1]
+    names = re.findall(r"^#print axioms\s+(\S+)", text, flags=re.M)
     # parse
     found = {}
     for m in re.finditer(r"^'([^\n]+?)' depends on axioms: \[([^\]]*)\]", out, flags=re.S | re.M):
@@ -167,7 +177,7 @@ def audit(prop: str, tier: str):
                 {"name": f"theorem {n}", "ok": not extra, "axioms": sorted(found[n]), "detail": f"extra axioms {sorted(extra)}" if extra else ""}
             )
     # banned tokens in the sources imported by the audit file (transitively inside our package)
-    seen, todo = set(), [audit_file]
+    seen, todo = set(), [audit_file, *extra_files]
     while todo:
         f = todo.pop()
         if f in seen or not f.exists():
